@@ -50,7 +50,8 @@ type Options struct {
 	TimerSlack time.Duration
 	KeepTrace  int // number of trailing trace lines to keep (0: 60)
 	FullTrace  bool
-	Dense      bool // statement-granularity scheduling points in all instrumented code for this run
+	Dense      bool     // statement-granularity scheduling points in all instrumented code for this run
+	DenseFuncs []string // functions always included in a dense run
 }
 
 type Result struct {
@@ -132,7 +133,11 @@ func Run(t *testing.T, w World, opt Options) (res Result) {
 		opt.TimerSlack = 0
 	}
 	simhook.DenseAll = opt.Dense
-	defer func() { simhook.DenseAll = false }()
+	simhook.DenseFuncs = map[string]bool{}
+	for _, f := range opt.DenseFuncs {
+		simhook.DenseFuncs[f] = true
+	}
+	defer func() { simhook.DenseAll, simhook.DenseFuncs = false, nil }()
 	defer func() {
 		if r := recover(); r != nil {
 			s := fmt.Sprint(r)
